@@ -257,8 +257,14 @@ let () =
         let failed : string list ref = ref [] in
         let chk name ok = tally name ok; if not ok then failed := name :: !failed in
         let detail = Buffer.create 256 in
+        let pre_ok (o : obs) = c01_mon !e o.st && c02_mon !e o.st && c04_nodup_mon o.st &&
+                               (match o.graph with Some g -> ri_check g | None -> true) in
         (match slots.(slot) with
          | None -> ()
+         | Some pre when not (pre_ok pre) ->
+           (* the state before this step already violates the invariants (an earlier step was reported for it):
+              the theorems say nothing about such states, so the step is not judged *)
+           bump dist "steps_skipped_broken_pre_state"
          | Some pre ->
            (* distinctness / non-triviality of the case *)
            let keyd = opline ^ "#" ^ pre.raw_ents ^ "#" ^ s_of_n pre.st.maxs in
@@ -269,7 +275,13 @@ let () =
            if Z.gt (z_of_n pre.st.tb.tombs) Z.zero then bump dist "tombstones>0";
            let xop = parse_op rest in
            let flag k = try List.assoc k post.flags with Not_found -> "?" in
-           chk "api" (flag "api" = "1");
+           (* the shared-reference API cross-check of the harness, split by what each sub-check is about *)
+           let api_reasons = (let f = flag "api" in if f = "1" || f = "?" then [] else
+                                match split ':' f with [_; r] -> split '+' r | _ -> ["unknown"]) in
+           let has l = List.exists (fun r -> List.mem r l) api_reasons in
+           chk "api_order" (not (has ["iter"; "iter_rev"; "keys"; "values"; "keys_rev"; "values_rev"; "peek_lru"; "peek_mru"; "debug"]));
+           chk "api_map" (not (has ["contains"; "peek_entry"; "peek"; "peek_owned"; "unknown"]));
+           chk "api_len" (not (has ["len"; "is_empty"; "scalars"]));
            chk "ro" (flag "ro" = "1");
            chk "oth" (flag "oth" = "1");
            if flag "api" <> "1" then Buffer.add_string detail (Printf.sprintf "  api: %s\n" (flag "api"));
